@@ -296,6 +296,23 @@ def floats_chars(ctx, rng):
                 if not ok:
                     ctx.violation("float", "float-codec-differs-from-ieee754",
                                   {"type": name, "endian": e, "value": repr(v), "dumped": got.hex(), "want": want.hex()})
+            # arrays (their own write path): zeros of both signs alone and among other values, the sign bit survives
+            for lst in ([-0.0], [0.0, -0.0], [-0.0, -0.0, -0.0], [0.0, 0.0], [1.5, -0.0], [-0.0, 2.0, 0.0], []):
+                want = struct.pack(f"{se}{len(lst)}{FFMT[name]}", *lst)
+                ctx.evaluation(("float-array", name, e, want.hex(), len(lst)))
+                ctx.cell("float-arrays-with-signed-zeros")
+                try:
+                    got = t[len(lst)].dumps(lst)
+                    back = list(t[len(lst)](want))
+                    S = cs._make_struct("FA", [__import__("dissect.cstruct", fromlist=["Field"]).Field("h", cs.uint8),
+                                               __import__("dissect.cstruct", fromlist=["Field"]).Field("v", t[len(lst)])])
+                    gs = S(h=7, v=list(lst)).dumps()
+                except Exception as ex:  # noqa: BLE001
+                    ctx.violation("float", f"float-array-raises:{type(ex).__name__}", {"type": name, "endian": e, "values": repr(lst), "error": lib.exc_sig(ex)})
+                    continue
+                if got != want or gs != b"\x07" + want or [math.copysign(1, x) for x in back] != [math.copysign(1, x) for x in lst] or back != lst:
+                    ctx.violation("float", "float-codec-differs-from-ieee754",
+                                  {"type": name, "endian": e, "value": repr(lst), "dumped": got.hex(), "want": want.hex(), "in_struct": gs.hex()})
             for _ in range(60 if not ctx.thorough else 2000):
                 raw = bytes(rng.randrange(256) for _ in range(size))
                 want = struct.unpack(se + FFMT[name], raw)[0]
